@@ -176,6 +176,89 @@ Proof.
   - eapply as_loop_vnn; [|exact H]. apply clipped_vnn.
 Qed.
 
+(* the transcription is an instance of the skeleton's "every executed iteration ends with a clip of some support vector":
+   whenever active_set_nnls returns, its result is active_set support x0 k for the support vectors of that run and k <= n_iter_max
+   executed iterations -- so the Tucker-HALS theorem (stated for every support oracle) covers the transcribed control flow *)
+Lemma iter_idx_ext {A} (f g : nat -> A -> A) : forall n k a, (forall i y, (k <= i)%nat -> f i y = g i y) -> iter_idx n k f a = iter_idx n k g a.
+Proof.
+  induction n; intros k a H; simpl; auto. rewrite (H k a) by lia. apply IHn. intros i y Hi. apply H. lia.
+Qed.
+Lemma as_loop_is_skeleton solve Utm UtU tol : forall fuel it x g p a out j,
+  as_loop Rops solve Utm UtU tol fuel it x g p a = Some out ->
+  exists (support : nat -> list R -> list R) (k : nat), (k <= fuel)%nat /\
+    out = iter_idx k j (fun i y => map (clip_min Rops 0) (support i y)) x.
+Proof.
+  induction fuel as [|f IH]; intros it x g p a out j H.
+  - simpl in H. inversion H; subst. exists (fun _ y => y), 0%nat. split; [lia|reflexivity].
+  - simpl in H. destruct (as_body Rops solve Utm UtU it x g p a) as [[[s2 p2] a2]|]; [|discriminate].
+    destruct (as_done Rops tol a2 _).
+    + inversion H; subst. exists (fun _ _ => s2), 1%nat. split; [lia|reflexivity].
+    + destruct (IH _ _ _ _ _ _ (S j) H) as [sup [k [Hk E]]].
+      exists (fun i y => if Nat.eqb i j then s2 else sup i y), (S k). split; [lia|].
+      simpl. rewrite Nat.eqb_refl. rewrite E. apply iter_idx_ext. intros i y Hi.
+      destruct (Nat.eqb_spec i j); [lia|reflexivity].
+Qed.
+Theorem active_set_nnls_is_skeleton solve Utm UtU tol x0 n out :
+  active_set_nnls Rops solve Utm UtU tol x0 n = Some out ->
+  exists (support : nat -> list R -> list R) (k : nat), (k <= n)%nat /\ out = active_set Rops support x0 k.
+Proof. unfold active_set_nnls, active_set. intros H. eapply as_loop_is_skeleton; eauto. Qed.
+
+(* ------------------------------------------------------------------ initialise, then decompose: the built-in initialisations composed
+   with the decompositions, for ANY raw (signed) SVD / random factors and core *)
+Section Composed.
+Variable nrm : list R -> R.
+Hypothesis nrm_nonneg : forall v, 0 <= nrm v.
+Lemma cp_inv_all_Forall st : cp_inv (fun _ => True) st -> vnn (fst st) /\ Forall mnn (snd st).
+Proof. intros [H1 H2]. split; auto. apply all_nth_Forall with (d := []). intros; apply H2; exact I. Qed.
+Lemma initialize_cp_user_hals_inv (D : nat -> Prop) w Fs modes nm :
+  vnn w -> (forall m, D m -> mnn (nth m Fs [])) -> cp_inv D (initialize_cp_user_hals Rops nrm w Fs modes nm).
+Proof.
+  intros Hw HF. unfold initialize_cp_user_hals. apply cp_fin_inv; auto. split; cbn [fst snd].
+  - apply ones_nn.
+  - intros m Hm. unfold absorb_at. apply nth_set_nth_P; auto. intros ->. apply mul_cols_nn; auto.
+Qed.
+Theorem init_then_non_negative_parafac Rk raw nm0 eps numf denf stop nm modes n :
+  0 < eps ->
+  let out := non_negative_parafac Rops nrm eps numf denf stop nm modes n (initialize_cp_nn Rops nrm Rk raw nm0) in
+  vnn (fst out) /\ Forall mnn (snd out).
+Proof.
+  intros He. destruct (cp_inv_all_Forall _ (initialize_cp_nn_inv nrm nrm_nonneg Rk raw nm0)) as [H1 H2].
+  destruct (initialize_cp_nn Rops nrm Rk raw nm0) as [w Fs]. apply non_negative_parafac_nonneg; auto.
+Qed.
+Theorem init_then_non_negative_parafac_hals Rk raw nm0 utm utu solve inner stop nn sps nm modes n :
+  let out := non_negative_parafac_hals Rops nrm utm utu solve inner stop nn sps nm modes n (initialize_cp_nn Rops nrm Rk raw nm0) in
+  vnn (fst out) /\ forall m, In m nn -> mnn (nth m (snd out) []).
+Proof.
+  destruct (cp_inv_all_Forall _ (initialize_cp_nn_inv nrm nrm_nonneg Rk raw nm0)) as [H1 H2].
+  destruct (initialize_cp_nn Rops nrm Rk raw nm0) as [w Fs]. apply non_negative_parafac_hals_nonneg; auto.
+  intros m _. apply Forall_nth_d; auto. constructor.
+Qed.
+Theorem init_then_non_negative_tucker core raw eps numf denf numc denc stop nm n_modes n :
+  0 < eps ->
+  let out := non_negative_tucker Rops nrm eps numf denf numc denc stop nm n_modes n (initialize_tucker_nn Rops core raw) in
+  vnn (data (fst out)) /\ Forall mnn (snd out).
+Proof.
+  intros He. destruct (initialize_tucker_nn_inv core raw) as [H1 H2].
+  destruct (initialize_tucker_nn Rops core raw) as [c Fs]. apply non_negative_tucker_nonneg; auto.
+Qed.
+Theorem init_then_non_negative_tucker_hals core raw alg feps utm utu inner sps lr csp lin cutm betas support as_n stop nm modes n :
+  0 <= feps ->
+  let out := non_negative_tucker_hals Rops nrm alg feps utm utu inner sps lr csp lin cutm betas support as_n stop nm modes n
+               (initialize_tucker_nn Rops core raw) in
+  vnn (data (fst out)) /\ Forall mnn (snd out).
+Proof.
+  intros He. destruct (initialize_tucker_nn_inv core raw) as [H1 H2].
+  destruct (initialize_tucker_nn Rops core raw) as [c Fs]. apply non_negative_tucker_hals_nonneg; auto.
+Qed.
+Theorem init_then_constrained_parafac nn other raw Ds split inner stop modes n :
+  forall m, In m nn -> mnn (nth m (fst (constrained_parafac Rops nn other split inner stop modes n (initialize_ccp Rops nn other raw, Ds))) []).
+Proof. apply constrained_parafac_nonneg. apply initialize_ccp_nonneg. Qed.
+Theorem init_then_parafac2 nn raw Rk utm utu solve inner istop nip line accept nm stop n :
+  let out := parafac2 Rops nrm utm utu solve inner istop nn nip line accept nm stop n (repeat (f1 Rops) Rk, initialize_parafac2_nn Rops nn raw) in
+  vnn (fst out) /\ forall m, In m nn -> mnn (nth m (snd out) []).
+Proof. apply parafac2_nonneg; auto. - apply ones_nn. - apply initialize_parafac2_nn_nonneg. Qed.
+End Composed.
+
 (* ------------------------------------------------------------------ what does NOT hold (executed over Q, the same functions) *)
 From Coq Require Import QArith.
 Definition qneg (x : Q) : Prop := Qle_bool 0 x = false.
